@@ -48,6 +48,9 @@ const (
 	//Amf0TypeMarkerTypedObject = uint8(0x10)
 )
 
+// amf0MaxNestedDepth 读取时，容器类型（object, array）允许的最大嵌套层数
+const amf0MaxNestedDepth = 32
+
 var (
 	// Amf0TypeMarkerObjectEndBytes Amf0TypeMarkerArrayEndBytes:
 	// object-end-type(0x00 0x00 0x09) 表示Object和EcmaArray类型的结束标识
@@ -284,6 +287,10 @@ func (amf0) ReadUndefinedOrUnsupported(b []byte) (int, error) {
 // @return int: 读取时从 b 消耗的字节大小
 // @return error: ...
 func (amf0) ReadObject(b []byte) (ObjectPairArray, int, error) {
+	return Amf0.readObject(b, 0)
+}
+
+func (amf0) readObject(b []byte, depth int) (ObjectPairArray, int, error) {
 	if len(b) < 1 {
 		return nil, 0, nazaerrors.Wrap(base.ErrAmfTooShort)
 	}
@@ -305,7 +312,7 @@ func (amf0) ReadObject(b []byte) (ObjectPairArray, int, error) {
 		index += l
 
 		var readErr error
-		ops, index, readErr = Amf0.read(b, index, k, ops)
+		ops, index, readErr = Amf0.read(b, index, k, ops, depth)
 		if readErr != nil {
 			return ops, index, readErr
 		}
@@ -316,6 +323,10 @@ func (amf0) ReadObject(b []byte) (ObjectPairArray, int, error) {
 
 // ReadArray Amf0TypeMarkerEcmaArray
 func (amf0) ReadArray(b []byte) (ObjectPairArray, int, error) {
+	return Amf0.readArray(b, 0)
+}
+
+func (amf0) readArray(b []byte, depth int) (ObjectPairArray, int, error) {
 	if len(b) < 5 {
 		return nil, 0, nazaerrors.Wrap(base.ErrAmfTooShort)
 	}
@@ -334,7 +345,7 @@ func (amf0) ReadArray(b []byte) (ObjectPairArray, int, error) {
 		index += l
 
 		var readErr error
-		ops, index, readErr = Amf0.read(b, index, k, ops)
+		ops, index, readErr = Amf0.read(b, index, k, ops, depth)
 		if readErr != nil {
 			return ops, index, readErr
 		}
@@ -349,6 +360,10 @@ func (amf0) ReadArray(b []byte) (ObjectPairArray, int, error) {
 }
 
 func (amf0) ReadStrictArray(b []byte) (ObjectPairArray, int, error) {
+	return Amf0.readStrictArray(b, 0)
+}
+
+func (amf0) readStrictArray(b []byte, depth int) (ObjectPairArray, int, error) {
 	if len(b) < 5 {
 		return nil, 0, nazaerrors.Wrap(base.ErrAmfTooShort)
 	}
@@ -361,7 +376,7 @@ func (amf0) ReadStrictArray(b []byte) (ObjectPairArray, int, error) {
 	var ops ObjectPairArray
 	for i := 0; i < count; i++ {
 		var readErr error
-		ops, index, readErr = Amf0.read(b, index, "", ops)
+		ops, index, readErr = Amf0.read(b, index, "", ops, depth)
 		if readErr != nil {
 			return ops, index, readErr
 		}
@@ -383,9 +398,15 @@ func (amf0) ReadObjectOrArray(b []byte) (ObjectPairArray, int, error) {
 	return nil, 0, base.NewErrAmfInvalidType(b[0])
 }
 
-func (amf0) read(b []byte, index int, k string, ops ObjectPairArray) (ObjectPairArray, int, error) {
+// read
+//
+// @param depth: 当前容器类型（object, array）的嵌套层数，超过 amf0MaxNestedDepth 则返回错误，避免恶意构造的数据导致无限递归
+func (amf0) read(b []byte, index int, k string, ops ObjectPairArray, depth int) (ObjectPairArray, int, error) {
 	if len(b)-index < 1 {
 		return nil, 0, nazaerrors.Wrap(base.ErrAmfTooShort)
+	}
+	if depth >= amf0MaxNestedDepth {
+		return nil, 0, nazaerrors.Wrap(base.ErrAmfTooDeep)
 	}
 	vt := b[index]
 	switch vt {
@@ -417,21 +438,21 @@ func (amf0) read(b []byte, index int, k string, ops ObjectPairArray) (ObjectPair
 		}
 		index += l
 	case Amf0TypeMarkerObject:
-		v, l, err := Amf0.ReadObject(b[index:])
+		v, l, err := Amf0.readObject(b[index:], depth+1)
 		if err != nil {
 			return nil, 0, err
 		}
 		ops = append(ops, ObjectPair{k, v})
 		index += l
 	case Amf0TypeMarkerEcmaArray:
-		v, l, err := Amf0.ReadArray(b[index:])
+		v, l, err := Amf0.readArray(b[index:], depth+1)
 		if err != nil {
 			return nil, 0, err
 		}
 		ops = append(ops, ObjectPair{k, v})
 		index += l
 	case Amf0TypeMarkerStrictArray:
-		v, l, err := Amf0.ReadStrictArray(b[index:])
+		v, l, err := Amf0.readStrictArray(b[index:], depth+1)
 		if err != nil {
 			return nil, 0, err
 		}
